@@ -79,6 +79,21 @@ func (m *remote) Exists(_ context.Context, path, key string) (bool, error) {
 	return ok, nil
 }
 
+type brokenReader struct {
+	data   []byte
+	pos    int
+	failAt int
+}
+
+func (b *brokenReader) Read(p []byte) (int, error) {
+	if b.pos >= b.failAt {
+		return 0, errors.New("injected read fault on the output file")
+	}
+	n := copy(p, b.data[b.pos:min(len(b.data), b.failAt)])
+	b.pos += n
+	return n, nil
+}
+
 type WOp struct {
 	Kind  string `json:"kind"` // cas-write | get | drop-local | drop-remote | local-only-write | new-process | target-write | local-only-target
 	Blob  int    `json:"blob"`
@@ -167,6 +182,29 @@ func runWrapper(c WCase) (pbt.Result, error) {
 					res.NonTrivial = true
 				}
 			}
+		case "cas-write-source-fault":
+			// the output file cannot be read to the end (I/O error half way): the write must fail and must not leave a
+			// truncated object under the full digest in either store
+			hadRemote, hadLocal := remoteHas(d), localHas(d)
+			err := caching.NewCas(wrapper).Write(ctx, d, &brokenReader{data: data, failAt: len(data) / 2})
+			res.NonTrivial = true
+			res.Classes = append(res.Classes, "source-read-fault")
+			if err == nil && !(hadRemote && hadLocal) {
+				return res, pbt.Fail("write-succeeds-despite-source-fault", "op %d: Cas.Write(%s) returned nil although its reader failed half way", i, d)
+			}
+			rem.mu.Lock()
+			got, ok := rem.data["cas/"+d]
+			rem.mu.Unlock()
+			if ok && !bytes.Equal(got, data) {
+				return res, pbt.Fail("truncated-object-in-remote", "op %d: after a source read fault the remote holds %d bytes under digest %s (the blob has %d)", i, len(got), d, len(data))
+			}
+			if r, lerr := fsc.Get(ctx, "cas", d); lerr == nil {
+				lb, _ := io.ReadAll(r)
+				r.Close()
+				if !bytes.Equal(lb, data) {
+					return res, pbt.Fail("truncated-object-in-local", "op %d: after a source read fault the local cache holds %d bytes under digest %s (the blob has %d)", i, len(lb), d, len(data))
+				}
+			}
 		case "cas-write":
 			hadLocalOnly := localHas(d) && !remoteHas(d)
 			err := cas.Write(ctx, d, bytes.NewReader(data))
@@ -187,7 +225,7 @@ func runWrapper(c WCase) (pbt.Result, error) {
 			}
 		case "get":
 			hadLocal, hadRemote := localHas(d), remoteHas(d)
-			r, err := wrapper.Get(ctx, "cas", d)
+			r, err := cas.Load(ctx, d) // through the same Cas instance a build uses (its existence cache must not be poisoned by reads)
 			if err != nil {
 				if hadLocal {
 					return res, pbt.Fail("get-fails-although-local", "op %d: Get(%s) failed although the local cache has it: %v", i, d, err)
@@ -222,7 +260,7 @@ func TestWrapperOps(t *testing.T) {
 		Gen: func(t *rapid.T) WCase {
 			var c WCase
 			for i := rapid.IntRange(2, 10).Draw(t, "nops"); i > 0; i-- {
-				c.Ops = append(c.Ops, WOp{Kind: rapid.SampledFrom([]string{"cas-write", "cas-write", "get", "get", "get", "drop-local", "drop-local", "drop-remote", "local-only-write", "new-process", "target-write", "target-write", "local-only-target"}).Draw(t, "kind"),
+				c.Ops = append(c.Ops, WOp{Kind: rapid.SampledFrom([]string{"cas-write", "cas-write", "get", "get", "get", "drop-local", "drop-local", "drop-remote", "local-only-write", "new-process", "target-write", "target-write", "local-only-target", "cas-write-source-fault"}).Draw(t, "kind"),
 					Blob: rapid.IntRange(0, 3).Draw(t, "blob"), Fault: rapid.SampledFrom([]string{"", "", "", "set", "get", "head"}).Draw(t, "fault")})
 			}
 			return c
